@@ -122,6 +122,7 @@ type CallPlan struct {
 	InterceptDeadline   bool   // Deadline is set by a client interceptor; the caller's own context has CallerDeadline (0: none)
 	CallerDeadline      time.Duration
 	RecvPastEnd         bool          // server stream: the caller calls Receive once more after the stream has reported its end
+	MirrorBy            string        // unary: the handler interceptor with this tag hands the request object to a shadow client before it calls next
 	PreSendSleep        time.Duration // the caller creates the stream, then waits this long before its first Send / CloseRequest
 	InterceptorErr      bool          // the plan's error is returned by the outermost handler interceptor, user code never runs
 	InterceptorErrAfter bool          // client-stream: the outermost handler interceptor returns the plan\'s error after the handler has sent its response
